@@ -60,7 +60,7 @@ fn err_name(e: &ValidityError) -> String {
 enum Slot { Signed(usize), Pred, Contract }
 
 /// one generated case: inputs with the key (index into `keys`) that is supposed to sign each
-struct Case { inputs: Vec<Input>, slots: Vec<Slot>, nwit: usize, keys: Vec<SecretKey>, wit_key: Vec<usize> }
+struct Case { inputs: Vec<Input>, slots: Vec<Slot>, nwit: usize, keys: Vec<SecretKey>, wit_key: Vec<usize>, dishonest: bool }
 
 fn gen_case(ctx: &mut Ctx) -> Case {
     let nkeys = 1 + ctx.rng.below(3) as usize;
@@ -104,7 +104,22 @@ fn gen_case(ctx: &mut Ctx) -> Case {
             }
         }
     }
-    Case { inputs, slots, nwit, keys, wit_key }
+    // the attack the owner comparison exists for: an input owned by someone else points at a witness the
+    // transaction's author signed (decided BEFORE signing, so every signature is over the right id). Placed on an
+    // input that shares its witness with an earlier one when possible (recovery-cache hit).
+    let mut dishonest = false;
+    if ctx.rng.chance(1, 4) {
+        let signed: Vec<(usize, usize)> = slots.iter().enumerate().filter_map(|(x, s)| if let Slot::Signed(w) = s { Some((x, *w)) } else { None }).collect();
+        let later: Vec<usize> = signed.iter().filter(|(x, w)| signed.iter().any(|(y, w2)| y < x && w2 == w)).map(|(x, _)| *x).collect();
+        let target = if !later.is_empty() { Some(*ctx.rng.pick(&later)) } else { signed.last().map(|x| x.0) };
+        if let Some(x) = target {
+            let victim = if ctx.rng.chance(1, 2) { Address::new(ctx.rng.arr32()) } else { owner_of(&key(ctx)) };
+            set_owner(&mut inputs[x], victim);
+            dishonest = true;
+            ctx.count(if later.is_empty() { "dishonest.foreign-owner" } else { "dishonest.foreign-owner-on-cached-witness" });
+        }
+    }
+    Case { inputs, slots, nwit, keys, wit_key, dishonest }
 }
 
 fn set_owner(inp: &mut Input, a: Address) {
@@ -242,7 +257,8 @@ fn build<T: TxLike>(ctx: &mut Ctx, mk: &dyn Fn(Vec<Input>, Vec<Witness>) -> T, c
     if shared { ctx.count("shared-witness"); }
     ctx.distinct(&tx.to_bytes());
     let ok = observe(ctx, &tx, chain, "valid");
-    if !ok { ctx.oracle_fail("honest-transaction-rejected", &format!("chain={} tx={}", u64::from(*chain), hex(&tx.to_bytes())), "every input was signed with its owner's key"); }
+    if !ok && !case.dishonest { ctx.oracle_fail("honest-transaction-rejected", &format!("chain={} tx={}", u64::from(*chain), hex(&tx.to_bytes())), "every input was signed with its owner's key"); }
+    if ok && case.dishonest { ctx.oracle_fail("foreign-owned-input-accepted", &format!("chain={} tx={}", u64::from(*chain), hex(&tx.to_bytes())), "an input whose owner did not sign its witness was accepted"); }
     if ok && nsigned > 0 { let n = ctx.n(6, 30); tamper(ctx, &tx, chain, n); }
 
     // one defect per variant
